@@ -115,7 +115,20 @@ func scenarioN(cs []config) e1.Scenario {
 	body := func() {
 		f := &farm.Farm{}
 		answered = vs.Choose(2, "controllers-answer") == 1
-		for _, a := range []string{"192.168.1.100:60000", "10.0.0.7:54321", otherAt, "192.168.1.77:60005", "192.168.1.78:60000"} {
+		farmAddrs := []string{"192.168.1.100:60000", "10.0.0.7:54321", otherAt, "192.168.1.77:60005", "192.168.1.78:60000"}
+		for _, c := range cs {
+			// a controller listens wherever the configured address points (so that a TCP connection attempt is observable)
+			if ap, err := netip.ParseAddrPort(c.ctrl); err == nil && ap.Port() != 0 && !ap.Addr().IsUnspecified() {
+				known := false
+				for _, a := range farmAddrs {
+					known = known || a == c.ctrl
+				}
+				if !known {
+					farmAddrs = append(farmAddrs, c.ctrl)
+				}
+			}
+		}
+		for _, a := range farmAddrs {
 			serial := target
 			if a == otherAt {
 				serial = other
@@ -373,6 +386,21 @@ func main() {
 			}
 		}
 	}
+	// controller addresses of every IPv4 address class: a valid IPv4 address and a non-zero port is a
+	// usable address whatever range it lies in (loopback, link-local, carrier-grade NAT, documentation,
+	// multicast, reserved, the limited broadcast address) - the request goes to exactly that endpoint
+	for _, ctrl := range []string{"127.0.0.1:60000", "169.254.10.20:60000", "100.64.0.1:60000", "192.0.2.1:60000", "198.18.0.1:60000", "224.0.0.251:60000", "239.255.255.250:60000", "240.0.0.1:60000", "255.255.255.255:60000", "1.1.1.1:1", "192.168.1.2:60000"} {
+		for _, proto := range []string{"", "udp", "tcp"} {
+			if proto == "tcp" && (strings.HasPrefix(ctrl, "22") || strings.HasPrefix(ctrl, "23") || strings.HasPrefix(ctrl, "24") || strings.HasPrefix(ctrl, "255.")) {
+				continue // (no TCP connection can be attempted to a multicast / reserved / broadcast address)
+			}
+			for _, bind := range []string{"", "192.168.1.2:54321"} {
+				for _, nd := range []bool{false, true} {
+					scenarios = append(scenarios, scenario(config{ctrl, proto, bind, "", false, nd, false}))
+				}
+			}
+		}
+	}
 	// a process whose standard streams are closed: the sockets get descriptors 0, 1, 2
 	for _, ctrl := range []string{"none", "192.168.1.100:60000"} {
 		for _, proto := range []string{"udp", "tcp"} {
@@ -422,7 +450,7 @@ func main() {
 	if r.Worker == "" && r.Replay == "" {
 		e1.Conformance(r)
 	}
-	r.Rule("full cross product of 7 target-controller configurations (one of them the directed broadcast address of the simulated host's own subnet, as net.Interfaces reports it under the model) x 6 protocol strings x 6 bind addresses (two of them with the fixed port equal to the port of the default / configured broadcast address, one equal to a controller's port) x 3 broadcast settings x bystander controller x constructor (2952 configurations), each x 32 operations x controllers {silent, answering} as environment choices; 8 configurations in a process whose standard streams are closed (socket descriptors 0, 1, 2); 80 more configurations with unusual configured broadcast addresses (0.0.0.0 with a port, 255.255.255.255 on another port, other directed broadcasts, a unicast address); plus every ordered pair (thorough: also every ordered triple over the 12 UDP ones) of 24 reduced configurations {unconfigured, configured} x {udp, tcp} x {no bind, two different local addresses on the same fixed port} x {default, configured broadcast address} as clients used one after the other in one process, each call judged against its own client's configuration; and the 16 fixed-bind-port ones with the bind port already held (UDP and TCP port space) by other sockets of the host (a call may fail without sending, but nothing may leave from another source); distinct = distinct (transport, destination, answered) labels")
+	r.Rule("full cross product of 7 target-controller configurations (one of them the directed broadcast address of the simulated host's own subnet, as net.Interfaces reports it under the model) x 6 protocol strings x 6 bind addresses (two of them with the fixed port equal to the port of the default / configured broadcast address, one equal to a controller's port) x 3 broadcast settings x bystander controller x constructor (2952 configurations), each x 32 operations x controllers {silent, answering} as environment choices; controllers at addresses of 11 IPv4 address classes (loopback, link-local, CGNAT, documentation, multicast, reserved, limited broadcast, the host's own); 8 configurations in a process whose standard streams are closed (socket descriptors 0, 1, 2); 80 more configurations with unusual configured broadcast addresses (0.0.0.0 with a port, 255.255.255.255 on another port, other directed broadcasts, a unicast address); plus every ordered pair (thorough: also every ordered triple over the 12 UDP ones) of 24 reduced configurations {unconfigured, configured} x {udp, tcp} x {no bind, two different local addresses on the same fixed port} x {default, configured broadcast address} as clients used one after the other in one process, each call judged against its own client's configuration; and the 16 fixed-bind-port ones with the bind port already held (UDP and TCP port space) by other sockets of the host (a call may fail without sending, but nothing may leave from another source); distinct = distinct (transport, destination, answered) labels")
 	r.Assume("reference routing function route() in this file, written from the property statement; protocol strings other than exactly \"tcp\" mean UDP")
 	r.Assume("simulated network: source address = bind address, ephemeral port when the bind port is 0")
 	r.Finish()
